@@ -363,9 +363,12 @@ def discharge_all(obls, both=False, jobs=None):
     from concurrent.futures import ThreadPoolExecutor
     pending = [o for o in obls if o.result is None]
     # z3's python API is not thread safe: the in-process attempts run serially, the races in parallel
-    hard = []
+    hard = []; misses = 0
     for ob in pending:
-        r, dt, m, why = run_z3(ob, QUICK_MS)
+        # (after several in-process attempts in a row that gave nothing, the rest of this function's obligations get a short first attempt:
+        #  they are of the same kind -- typically one postcondition on many paths -- and go to the portfolio anyway)
+        r, dt, m, why = run_z3(ob, QUICK_MS if misses < 4 else max(200, QUICK_MS // 6))
+        misses = misses + 1 if r == 'unknown' else 0
         ob.backends_tried.append(('z3', r, round(dt, 4))); ob.solver_s += dt; ob.backend = 'z3'
         if r == 'unknown': hard.append(ob)
         else:
@@ -376,7 +379,7 @@ def discharge_all(obls, both=False, jobs=None):
         o = _O(); o.to_smt2 = lambda native=False: texts[id(ob)][1 if native else 0]
         return _race(o, Z3_TIMEOUT_MS, CVC5_TIMEOUT_MS)
     if hard:
-        with ThreadPoolExecutor(max_workers=3) as tp:
+        with ThreadPoolExecutor(max_workers=int(os.environ.get('PYVC_RACES', '4'))) as tp:
             for ob, (who, r, dt2, results) in zip(hard, tp.map(work, hard)):
                 ob.solver_s += dt2
                 for k, v in results.items(): ob.backends_tried.append((k + '-cli', v[0], round(v[1], 3)))
